@@ -9,7 +9,10 @@
 
 The translator reads IRI_REGEX_SRC and IRELATIVE_REF_REGEX_SRC from <repo_root>/iri/src/_regex.rs
 on every run, parses the subset of the Rust `regex` syntax they use (verbose mode: white space and
-`#` comments ignored; groups `( )` `(?: )`; alternation; `* + ? {m} {m,n} {m,}`; literals and
+`#` comments ignored; groups `( )` `(?: )` `(?P<name> )` `(?<name> )`; the flags `i` (case-insensitive: the
+class / literal is closed under Unicode SIMPLE CASE FOLDING exactly as the regex crate does it, with the
+table of the regex-syntax release named in <repo_root>/Cargo.lock; ASCII folding under `(?-u)`), `u`, `x` as
+`(?i)`, `(?i: )`, `(?-i)`, `(?xi)` ...; alternation; `* + ? {m} {m,n} {m,}`; literals and
 backslash-escaped punctuation; classes with ranges and `\\u{..}` / `\\xHH` escapes; `^` only as the
 first and `$` only as the last token) and FAILS LOUDLY on anything else (also when the way the
 validators use the two constants changes).  For each regex it emits into RegexSrc.v
@@ -20,8 +23,12 @@ validators use the two constants changes).  For each regex it emits into RegexSr
 and into RegexAtoms.v (stable: it does not depend on the sources)
   (b) the type `rex`, the atom table (code point ranges -> atom) and atom representatives.
 `x?` is `x | eps`, `x+` is `x x*`, `x{m,n}` is `x^m (eps | x (eps | ...))`.
-A class whose boundaries do not align with the atoms is a translator failure (the atom table must
-then be refined by hand).  Coq re-checks the alignment and that (a) is the abstraction of (c)
+A class whose boundaries do not align with the fixed atoms makes the translator REFINE the table: the
+atom that the class cuts is split, the part that does not hold the atom's representative becoming a
+new atom (ids 27, 28, ... in order of appearance; `refine_atoms`).  On the unchanged sources nothing is
+split and RegexAtoms.v is byte-identical.  A refined table lets `ka` print a distinguishing word also
+when a class of the source is wider or narrower than the RFC's (e.g. `(?i:[a-z])` = [A-Za-z] + U+017F +
+U+212A).  Coq re-checks the alignment and that (a) is the abstraction of (c)
 (C09/Properties.v), so only the parser is trusted, and it is exercised by the correspondence run.
 IriWiring.v records which oxiri entry point BaseIri::resolve uses for typed references.
 """
@@ -71,10 +78,10 @@ ATOMS = [
 ]
 
 
-def atom_table():
+def atom_table(atoms=None):
     """sorted contiguous list of (lo, hi, atom) covering 0..MAXCP"""
     pieces = []
-    for aid, _n, _r, rs in ATOMS:
+    for aid, _n, _r, rs in (atoms or ATOMS):
         if rs is None:
             continue
         for lo, hi in rs:
@@ -95,6 +102,82 @@ def atom_table():
     return out
 
 
+def _inter(xs, ys):
+    """intersection of two normalised range lists"""
+    out = []
+    for a, b in xs:
+        for c, d in ys:
+            lo, hi = max(a, c), min(b, d)
+            if lo <= hi:
+                out.append((lo, hi))
+    return norm_ranges(out)
+
+
+def _minus(xs, ys):
+    """xs minus ys (normalised range lists)"""
+    out = []
+    for a, b in xs:
+        cur = a
+        for c, d in sorted(ys):
+            if d < cur or c > b:
+                continue
+            if c > cur:
+                out.append((cur, c - 1))
+            cur = max(cur, d + 1)
+        if cur <= b:
+            out.append((cur, b))
+    return norm_ranges(out)
+
+
+def _size(rs):
+    return sum(hi - lo + 1 for lo, hi in rs)
+
+
+def _a_scalar(rs):
+    """a Unicode scalar value of the set (None if it only holds surrogates)"""
+    for lo, hi in rs:
+        for c in (lo, hi, 0xE000):
+            if lo <= c <= hi and not 0xD800 <= c <= 0xDFFF:
+                return c
+    return None
+
+
+def refine_atoms(classes, atoms=None):
+    """The fixed vocabulary, refined until no class of `classes` (normalised range lists) cuts an atom.
+    An atom cut by a class is split in two: the part holding the atom's representative keeps the id, the
+    name and (when nothing is removed from a listed range) the spelling of its ranges; the other part
+    becomes a NEW atom with the next free id.  Nothing changes when every class is aligned already."""
+    atoms = [tuple(a) for a in (atoms or ATOMS)]
+    changed = True
+    while changed:
+        changed = False
+        for rs in classes:
+            rs = norm_ranges(list(rs))
+            listed = norm_ranges([r for _a, _n, _rep, ars in atoms if ars is not None for r in ars])
+            for k, (aid, name, rep, ars) in enumerate(atoms):
+                cur = norm_ranges(list(ars)) if ars is not None else _minus([(0, MAXCP)], listed)
+                inside = _inter(cur, rs)
+                if not inside or _size(inside) == _size(cur):
+                    continue
+                outside = _minus(cur, rs)
+                keep, new = (inside, outside) if any(lo <= ord(rep) <= hi for lo, hi in inside) else (outside, inside)
+                c = _a_scalar(new)
+                if c is None:
+                    raise ValueError("class %s cuts atom %d (%s) at surrogates only" % (fmt_ranges(rs), aid, name))
+                if ars is not None:
+                    # listed ranges that are untouched keep their spelling (one table entry each)
+                    kept = [r for r in ars if not _inter([r], new)]
+                    kept += _minus(norm_ranges([r for r in ars if _inter([r], new)]), new)
+                    atoms[k] = (aid, name, rep, sorted(kept))
+                nid = len(atoms)
+                atoms.append((nid, "%s_%s" % (name, "in" if new is inside else "out"), chr(c), new))
+                changed = True
+                break
+            if changed:
+                break
+    return atoms
+
+
 def norm_ranges(rs):
     rs = sorted(rs)
     out = []
@@ -106,9 +189,10 @@ def norm_ranges(rs):
     return out
 
 
-def atoms_of_class(rs, table):
+def atoms_of_class(rs, table, atoms=None):
     """atoms covered by the class; ValueError if the class cuts an atom"""
     rs = norm_ranges(rs)
+    atoms = atoms or ATOMS
 
     def inside(c):
         return any(lo <= c <= hi for lo, hi in rs)
@@ -125,10 +209,10 @@ def atoms_of_class(rs, table):
         elif covered == 0:
             part.add(("out", aid))
         else:
-            raise ValueError("class %s cuts atom %d (%s) inside U+%04X..U+%04X" % (fmt_ranges(rs), aid, ATOMS[aid][1], lo, hi))
+            raise ValueError("class %s cuts atom %d (%s) inside U+%04X..U+%04X" % (fmt_ranges(rs), aid, atoms[aid][1], lo, hi))
     for aid in full:
         if ("out", aid) in part:
-            raise ValueError("class %s covers only some ranges of atom %d (%s)" % (fmt_ranges(rs), aid, ATOMS[aid][1]))
+            raise ValueError("class %s covers only some ranges of atom %d (%s)" % (fmt_ranges(rs), aid, atoms[aid][1]))
     # same order as C09/Model.v `atoms_in`: atoms of the covered entries in table order, keeping the
     # LAST occurrence of each atom
     seq = [aid for lo, hi, aid in table if aid in full]
@@ -148,10 +232,115 @@ class RegexSyntax(Exception):
     pass
 
 
+# ---------------------------------------------------------------- Unicode simple case folding (flag i)
+CUR_REPO_ROOT = None      # set by translate(): where Cargo.lock names the regex-syntax release in use
+_FOLD_CACHE = {}
+
+
+def _fold_table_file():
+    """unicode_tables/case_folding_simple.rs of the regex-syntax release that <repo>/Cargo.lock pins (the table the
+    regex crate folds with), from cargo's registry sources; the newest unpacked release if the lock cannot be read"""
+    import glob
+    ver = None
+    for root in (CUR_REPO_ROOT, REPO):
+        try:
+            m = re.search(r'name = "regex-syntax"\s*\nversion = "([^"]+)"', open(os.path.join(root, "Cargo.lock")).read())
+            if m:
+                ver = m.group(1)
+                break
+        except (OSError, TypeError):
+            pass
+    home = os.environ.get("CARGO_HOME") or os.path.expanduser("~/.cargo")
+    pat = os.path.join(home, "registry/src/*/regex-syntax-%s/src/unicode_tables/case_folding_simple.rs")
+    found = sorted(glob.glob(pat % ver)) if ver else []
+    if not found:
+        def key(f):
+            m = re.search(r"regex-syntax-(\d+)\.(\d+)\.(\d+)", f)
+            return tuple(int(x) for x in m.groups()) if m else (0, 0, 0)
+        found = sorted(glob.glob(pat % "*"), key=key)
+    if not found:
+        raise RegexSyntax("flag i: the simple case folding table of regex-syntax was not found under %s" % home)
+    return found[-1]
+
+
+def simple_case_folding():
+    """{code point: [the other code points of its simple-case-folding orbit]}, as regex-syntax has it
+    (CASE_FOLDING_SIMPLE, generated by `ucd-generate case-folding-simple --chars --all-pairs`)"""
+    f = _fold_table_file()
+    if f not in _FOLD_CACHE:
+        text = open(f, encoding="utf8").read()
+        tab = {}
+        for m in re.finditer(r"\('((?:\\.|[^'\\])+)',\s*&\[([^\]]*)\]\)", text):
+            def cp(lit):
+                if lit.startswith("\\u{"):
+                    return int(lit[3:-1], 16)
+                if lit.startswith("\\"):
+                    return ord(lit[1])
+                if len(lit) != 1:
+                    raise RegexSyntax("unreadable entry %r in %s" % (lit, f))
+                return ord(lit)
+            tab[cp(m.group(1))] = [cp(x) for x in re.findall(r"'((?:\\.|[^'\\])+)'", m.group(2))]
+        if len(tab) < 1000 or tab.get(ord("k")) is None:
+            raise RegexSyntax("unreadable simple case folding table %s" % f)
+        _FOLD_CACHE[f] = tab
+    return _FOLD_CACHE[f]
+
+
+def case_fold_class(rs, unicode=True):
+    """ClassUnicode::case_fold_simple / ClassBytes::case_fold_simple of regex-syntax: every member's orbit is added"""
+    rs = norm_ranges(list(rs))
+    extra = []
+    if unicode:
+        tab = simple_case_folding()
+        keys = sorted(tab)
+        import bisect
+        for lo, hi in rs:
+            for k in keys[bisect.bisect_left(keys, lo):bisect.bisect_right(keys, hi)]:
+                extra += [(c, c) for c in tab[k]]
+    else:
+        for lo, hi in rs:
+            for c in range(max(lo, 0x41), min(hi, 0x5A) + 1):
+                extra.append((c + 32, c + 32))
+            for c in range(max(lo, 0x61), min(hi, 0x7A) + 1):
+                extra.append((c - 32, c - 32))
+    return norm_ranges(rs + extra)
+
+
 class P:
     def __init__(self, src):
         self.s = src
         self.i = 0
+        self.icase = False       # flag i
+        self.unicode = True      # flag u (on by default in the regex crate)
+
+    def cls(self, rs):
+        """a leaf: the class as written, closed under case folding when flag i is on"""
+        rs = norm_ranges(list(rs))
+        if self.icase:
+            rs = case_fold_class(rs, self.unicode)
+        if not self.unicode and any(hi > 0x7F for _lo, hi in rs):
+            self.err("non-ASCII class under (?-u) is not supported")
+        return ("cls", rs)
+
+    def set_flags(self, text):
+        """`xi-u` ...: x may only be switched on (this parser is always in verbose mode)"""
+        on = True
+        if text == "" or text.endswith("-"):
+            self.err("empty flag group")
+        for c in text:
+            if c == "-":
+                if not on:
+                    self.err("two - in a flag group")
+                on = False
+            elif c == "i":
+                self.icase = on
+            elif c == "u":
+                self.unicode = on
+            elif c == "x":
+                if not on:
+                    self.err("switching verbose mode off is not supported")
+            else:
+                self.err("unsupported flag %r" % c)   # m s U R: no . ^ $ or greedy/lazy distinction is translated
 
     def err(self, msg):
         raise RegexSyntax("%s at offset %d near %r" % (msg, self.i, self.s[max(0, self.i - 10):self.i + 15]))
@@ -173,9 +362,11 @@ class P:
         return self.s[self.i] if self.i < len(self.s) else ""
 
     def parse_top(self):
-        if not self.s.startswith("(?x)"):
-            self.err("expected the (?x) flag group first")
-        self.i = 4
+        m = re.compile(r"\(\?([a-zA-Z]*x[a-zA-Z]*(?:-[a-zA-Z]+)?)\)").match(self.s)
+        if not m:
+            self.err("expected a flag group switching verbose mode on, like (?x), first")
+        self.i = m.end()
+        self.set_flags(m.group(1))
         if self.peek() != "^":
             self.err("expected ^ anchor first")
         self.i += 1
@@ -209,6 +400,14 @@ class P:
                 if top:
                     break
                 self.err("$ inside a group")
+            m = re.compile(r"\(\?([a-zA-Z-]+)\)").match(self.s, self.i)
+            if m:
+                # (?flags): in force until the end of the enclosing group (also across `|`)
+                self.i = m.end()
+                self.set_flags(m.group(1))
+                if self.peek() in ("*", "+", "?", "{"):
+                    self.err("quantifier without operand")
+                continue
             items.append(self.parse_rep())
         if not items:
             return ("eps",)
@@ -251,26 +450,36 @@ class P:
         c = self.peek()
         if c == "(":
             self.i += 1
+            saved = (self.icase, self.unicode)     # flags set inside a group end with it
             if self.s.startswith("?:", self.i):
                 self.i += 2
             elif self.s.startswith("?", self.i):
-                self.err("unsupported group flag")
+                m = re.compile(r"\?([a-zA-Z-]+):").match(self.s, self.i)            # (?flags: ... )
+                n = re.compile(r"\?P?<[A-Za-z_][A-Za-z0-9_.\[\]]*>").match(self.s, self.i)   # named capture
+                if m:
+                    self.i = m.end()
+                    self.set_flags(m.group(1))
+                elif n:
+                    self.i = n.end()
+                else:
+                    self.err("unsupported group flag")
             r = self.parse_alt()
             if self.peek() != ")":
                 self.err("expected )")
             self.i += 1
+            self.icase, self.unicode = saved
             return r
         if c == "[":
-            return ("cls", self.parse_class())
+            return self.cls(self.parse_class())
         if c in "*+?{":
             self.err("quantifier without operand")
         if c in ".^":
             self.err("unsupported metacharacter %r" % c)
         if c == "\\":
             cp = self.parse_escape()
-            return ("cls", [(cp, cp)])
+            return self.cls([(cp, cp)])
         self.i += 1
-        return ("cls", [(ord(c), ord(c))])
+        return self.cls([(ord(c), ord(c))])
 
     def parse_escape(self):
         s = self.s
@@ -569,28 +778,37 @@ def resolve_wiring(repo_root):
     return checked
 
 
+LAST_ATOMS = None     # the (possibly refined) vocabulary of the last translate(): used to print `ka` words
+
+
 def translate(repo_root):
+    global CUR_REPO_ROOT, LAST_ATOMS
+    CUR_REPO_ROOT = repo_root
     srcs, path = extract_sources(repo_root)
     checked = resolve_wiring(repo_root)
-    table = atom_table()
-    em = Emitter(table)
     asts = {}
     for name, src in srcs.items():
         asts[name] = parse_regex(src)
+    em = Emitter(None)
     bodies = []
     for name, coqname in (("IRI_REGEX_SRC", "iri_regex"), ("IRELATIVE_REF_REGEX_SRC", "irelative_ref_regex")):
         bodies.append((coqname, em.conc(asts[name]), em.abst(asts[name])))
+    # the fixed vocabulary, split where a class of the source cuts an atom (nothing is split on the unchanged sources)
+    atoms = refine_atoms([list(rs) for rs in em.order])
+    LAST_ATOMS = atoms
+    table = atom_table(atoms)
+    em.table = table
     cls_defs, abs_defs = [], []
     for k, rs in enumerate(em.order):
-        ids = atoms_of_class(list(rs), table)      # raises on misalignment
+        ids = atoms_of_class(list(rs), table, atoms)      # raises on misalignment
         cls_defs.append("Definition k%d : cclass := %s.  (* %s *)" % (k, coq_ranges(rs), fmt_ranges(rs)))
         abs_defs.append("Definition a%d : rex N := %s." % (k, sum_of_atoms(ids)))
     sha = hashlib.sha256(("\0".join(srcs[n] for n in sorted(srcs))).encode("utf8")).hexdigest()
     atomdoc = "\n".join("   %2d %-9s %s" % (aid, nm, "(everything else)" if rs is None else fmt_ranges(norm_ranges(rs)))
-                        for aid, nm, _rep, rs in ATOMS)
-    atoms_text = ATOMS_HEADER % dict(atomdoc=atomdoc, natoms=len(ATOMS),
+                        for aid, nm, _rep, rs in atoms)
+    atoms_text = ATOMS_HEADER % dict(atomdoc=atomdoc, natoms=len(atoms),
                                      table=";\n   ".join("(%d, %d, %d)" % t for t in table),
-                                     reprs="; ".join(str(ord(rep)) for _a, _n, rep, _r in ATOMS))
+                                     reprs="; ".join(str(ord(rep)) for _a, _n, rep, _r in atoms))
     text = HEADER % dict(src="<repo>/iri/src/_regex.rs", sha=sha)
     text += "\n(* the distinct character classes of the two sources *)\n" + "\n".join(cls_defs) + "\n"
     text += "Definition all_classes : list cclass := [%s].\n" % "; ".join("k%d" % k for k in range(len(em.order)))
@@ -606,7 +824,8 @@ def translate(repo_root):
                    "   selected by Resolvable::KNOWN_VALID (false)? *)\n"
                    "Definition typed_resolve_is_checked : bool := %s.\n"
                    % ("<repo>/iri/src/resolve.rs", "true" if checked else "false"))
-    info = {"typed_resolve_is_checked": checked, "regex_source_sha256": sha[:16], "regex_classes": len(em.order), "regex_atoms": len(ATOMS),
+    info = {"typed_resolve_is_checked": checked, "regex_source_sha256": sha[:16], "regex_classes": len(em.order), "regex_atoms": len(atoms),
+            "regex_atoms_added_by_refinement": ["%d %s %s" % (a[0], a[1], fmt_ranges(norm_ranges(a[3]))) for a in atoms[len(ATOMS):]],
             "RegexSrc.v.sha256": hashlib.sha256(text.encode()).hexdigest()[:16],
             "RegexAtoms.v.sha256": hashlib.sha256(atoms_text.encode()).hexdigest()[:16]}
     return (atoms_text, text, wiring_text), info, asts
@@ -642,10 +861,11 @@ def gen_regex(root, repo_root=None, out_dir=None):
 
 
 # ---------------------------------------------------------------- counter-examples of `ka`
-def word_to_string(word):
+def word_to_string(word, atoms=None):
     """'f 3⋅f 9⋅f 20' (as printed by ka after `not a KA theorem:`) -> concrete string"""
+    atoms = atoms or LAST_ATOMS or ATOMS
     ids = [int(x) for x in re.findall(r"\bf\s+(\d+)", word)]
-    return "".join(ATOMS[i][2] for i in ids)
+    return "".join(atoms[i][2] if i < len(atoms) else "\ufffd" for i in ids)
 
 
 def ka_counterexamples(log_text):
@@ -668,13 +888,15 @@ def ka_extra(root, tier, seed, summaries):
     log = os.path.join(root, "build/logs/C09/coq.log")
     if not os.path.exists(log):
         return []
+    if "not a KA theorem:" not in open(log, errors="replace").read():
+        return []
+    try:
+        _, _, asts = translate(REPO)      # also sets the (possibly refined) atoms the word is read with
+    except Exception:
+        asts = {}
     found = ka_counterexamples(open(log, errors="replace").read())
     if not found:
         return []
-    try:
-        _, _, asts = translate(REPO)
-    except Exception:
-        asts = {}
     res = []
     exe = os.path.join(root, "build/target/debug/c09")
     for fname, s, word in found:
